@@ -939,6 +939,68 @@ def stateful_consumer_correspondence(chk, n):
         yield gets, real
 
 
+def stateful_interrupt_probe(chk):
+    """Ctrl-C during the stateful phase: when the consumer is handed `Interrupted`, the stop flag must already be set —
+    the state-machine thread keeps running while the consumer handles the event, and it only stops sending requests once it
+    sees the flag.  Real `stateful.execute`; the thread body is a scripted producer that goes on "sending" until it sees
+    the flag; KeyboardInterrupt is raised from the consumer's k-th `get`; the consumer is slow to come back for more."""
+    import time as _t
+    from schemathesis.engine.phases import stateful as stateful_phase
+    from schemathesis.engine.phases.stateful import _executor as st_exec
+    schema = load_schema("http://127.0.0.1:9", raw=STATEFUL_RAW)
+    for k in (1, 2, 4):
+        ctx = make_ctx(schema)
+        sent_after_report = []
+        reported = threading.Event()
+
+        def producer(*, state_machine, event_queue, engine):
+            event_queue.put(events.SuiteStarted(phase=PhaseName.STATEFUL_TESTING))
+            t0 = _t.time()
+            while not engine.has_to_stop and _t.time() - t0 < 5:
+                if reported.is_set():
+                    sent_after_report.append(_t.time())      # a request that goes out after the run was reported interrupted
+                _t.sleep(0.005)
+
+        RealQueue = queue.Queue
+
+        class KiQueue(RealQueue):
+            n = 0
+
+            def get(self, *a, **kw):
+                if threading.current_thread() is threading.main_thread() or threading.current_thread().name == "MainThread":
+                    KiQueue.n += 1
+                    if KiQueue.n == k:
+                        raise KeyboardInterrupt
+                return super().get(*a, **kw)
+
+        phase = Phase(name=PhaseName.STATEFUL_TESTING, is_supported=True, is_enabled=True)
+        seen = []
+        with mock.patch.object(st_exec, "execute_state_machine_loop", producer), \
+                mock.patch.object(stateful_phase.queue, "Queue", KiQueue):
+            gen = stateful_phase.execute(ctx, phase)
+            for ev in gen:
+                kind = ev_kind(ev)
+                seen.append((kind, ctx.has_to_stop))
+                if kind == "Interrupted":
+                    reported.set()
+                    _t.sleep(0.15)          # the consumer handles the event before it asks for the next one
+        flag_at_report = [f for kd, f in seen if kd == "Interrupted"]
+        chk.case("stateful:interrupt", key=[k], nontrivial=True,
+                 sample={"ki_at_get": k, "events": [kd for kd, _ in seen], "stop_flag_when_Interrupted_is_delivered": flag_at_report,
+                         "producer_iterations_after_the_report": len(sent_after_report)})
+        chk.feature(f"stateful:interrupt:reported={bool(flag_at_report)}")
+        if not flag_at_report:
+            chk.violation(f"{chk.prop}:stateful.execute:KeyboardInterrupt-not-reported",
+                          f"KeyboardInterrupt at the consumer's get #{k}: no Interrupted event ({[kd for kd, _ in seen]})",
+                          {"mechanism": "stateful_interrupt_probe", "k": k})
+        elif flag_at_report != [True] or sent_after_report:
+            chk.violation(f"{chk.prop}:stateful.execute:reported-Interrupted-before-the-stop-flag-is-set",
+                          f"KeyboardInterrupt at the consumer's get #{k}: when Interrupted is delivered the stop flag is "
+                          f"{flag_at_report}; the state-machine thread went on for {len(sent_after_report)} more iterations "
+                          f"while the consumer handled the event",
+                          {"mechanism": "stateful_interrupt_probe", "k": k, "events": seen})
+
+
 # ---------------------------------------------------------------------------------------------------------------
 # G. the instrumented state machine: the real `_InstrumentedStateMachine` (setup / step / validate_response /
 #    teardown), `StatefulContext`, `ExecutionControl` and every arm of `execute_state_machine_loop`, driven by a
